@@ -118,3 +118,25 @@ def mempool_replay(g, ob, vals, res):
         if rc not in (0, 'timeout', 'build-failed'):
             return dict(reproduced=True, output='\n'.join(outs), cmd='valgrind replay/mempool_replay.c %s (exit %s; 97 = valgrind error, other non-zero = oracle/abort)' % (args, rc))
     return dict(reproduced=False, output='\n'.join(outs), cmd='replay/mempool_replay.c under valgrind')
+
+
+def codegen_asan_replay(which):
+    """Native replay for the table generators: build codegen/calc_<which>.c with ASan + UBSan and run it."""
+    def f(g, ob, vals, res):
+        import subprocess
+        d = os.path.join(cvlib.scratch(), 'codegen-asan')
+        os.makedirs(d, exist_ok=True)
+        exe = os.path.join(d, 'calc_' + which)
+        cg = os.path.join(cvlib.REPO, 'codegen')
+        cmd = ['gcc', '-O0', '-g', '-fsanitize=address,undefined', '-fno-sanitize-recover=all', '-I' + cg,
+               os.path.join(cg, 'calc_%s.c' % which), os.path.join(cg, 'calc_utils.c'), '-lm', '-o', exe]
+        b = subprocess.run(cmd, capture_output=True, text=True)
+        if b.returncode != 0:
+            return dict(reproduced=False, output='build failed: ' + b.stderr[-800:], cmd=' '.join(cmd))
+        try:
+            p = subprocess.run([exe], capture_output=True, text=True, timeout=300)
+        except subprocess.TimeoutExpired:
+            return dict(reproduced=False, output='timeout', cmd=exe)
+        return dict(reproduced=(p.returncode != 0), output='exit %s\n%s' % (p.returncode, p.stderr[-1500:]),
+                    cmd=' '.join(cmd) + ' && ' + exe + '  (non-zero exit = sanitizer report)')
+    return f
